@@ -63,6 +63,9 @@ def main():
     finally:
         sh('git -C /repo worktree remove --force %s' % WT)
         shutil.rmtree(WT, ignore_errors=True)
+        # the private build cache of this worktree (common.BUILD for VERIF_REPO=WT)
+        import re as _re
+        shutil.rmtree(os.path.join(V, '.build', 'alt', _re.sub(r'[^A-Za-z0-9]+', '_', WT).strip('_')), ignore_errors=True)
     # restore evidence of the real tree
     return 1 if bad else 0
 
